@@ -248,10 +248,12 @@ def execute(case, scratch):
             if f['source'] == '*':
                 failing = [s['name'] for s in prim]
                 for s in prim:
-                    os.unlink(os.path.join(root, b['base'] + s['file']))
+                    if os.path.exists(os.path.join(root, b['base'] + s['file'])):
+                        os.unlink(os.path.join(root, b['base'] + s['file']))
                 reads = {}
             else:
-                failing = [f['source']]
+                # the fault is on a file: every source that reads that file fails
+                failing = [s['name'] for s in prim if b['base'] + s['file'] == f['file']]
                 reads = apply_fault(root, f, snap)
             count['fired.' + f['kind']] = count.get('fired.' + f['kind'], 0) + 1
             model = model_report(case, failing, root, ctlp)
